@@ -79,6 +79,11 @@ def vector_max(*args):
 supported_functions = {"max": vector_max, "min": vector_min, "exp": np.exp, "floor": np.floor, "SRC_POP_AVG": None, "TGT_POP_AVG": None, "SRC_POP_SUM": None, "TGT_POP_SUM": None, "STITCH_AVG": None, "STITCH_SUM": None, "pi": np.pi, "cos": np.cos, "sin": np.sin, "sqrt": np.sqrt, "ln": np.log, "rand": np.random.rand, "randn": np.random.randn, "sdiv": sdiv}
 
 
+# Only these syntax elements may appear in a function string: numbers, names, arithmetic, comparisons and calls.
+# Anything else (attribute access, subscripts, lambdas, comprehensions, strings, ...) is rejected when parsing
+_allowed_nodes = (ast.Expression, ast.BinOp, ast.UnaryOp, ast.BoolOp, ast.Compare, ast.IfExp, ast.Call, ast.Name, ast.Constant, ast.Load, ast.operator, ast.unaryop, ast.boolop, ast.cmpop)
+
+
 class _DivTransformer(ast.NodeTransformer):
     """
     Helper class to use sdiv everywhere
@@ -149,10 +154,13 @@ def parse_function(fcn_str: str) -> tuple:
     fcn_ast = ast.fix_missing_locations(fcn_ast)
     dep_list = []
     for node in ast.walk(fcn_ast):
+        assert isinstance(node, _allowed_nodes), f"Unsupported syntax ({type(node).__name__}) in function '{fcn_str}'"
         if isinstance(node, ast.Name) and node.id not in supported_functions:
             dep_list.append(node.id)
-        elif isinstance(node, ast.Call) and hasattr(node, "func") and hasattr(node.func, "id"):
-            assert node.func.id in supported_functions, f"Only calls to supported functions are allowed ({node.func.id} in {fcn_str} is not supported)"
+        elif isinstance(node, ast.Call):
+            assert isinstance(node.func, ast.Name) and node.func.id in supported_functions, f"Only calls to supported functions are allowed (in {fcn_str})"
+        elif isinstance(node, ast.Constant):
+            assert isinstance(node.value, (int, float)), f"Only numeric constants are allowed (in {fcn_str})"
     compiled_code = compile(fcn_ast, filename="<ast>", mode="eval")
 
     def fcn(**deps):
